@@ -25,7 +25,10 @@ CLAIM = {
             "revocation validator refuses numbers outside {revoke, revoke-1}, a missing or unequal point, and "
             "compares the point derived from the supplied secret with get_previous_counterparty_point(revoke_num); "
             "(R3.5) Channel::validate_counterparty_revocation advances and persists only after Ok of validator and "
-            "of provide_secret; (R3.6) provide_secret writes old_secrets only after the chain comparison loop. "
+            "of provide_secret; (R3.6) provide_secret writes old_secrets only after the chain comparison loop; "
+            "(R3.7) the setter keeps the two point slots aligned with the numbers: previous <- current exactly on "
+            "num == next+1 (every path), never on a retry (num == next), previous <- None on a jump, current <- "
+            "Some(new point) whenever the number grows, next <- num. "
             "Does not decide the hash arithmetic of the 49-slot store (derive_secret/place_secret).",
     "note": "non-permissive policy; rustc MIR; one live object per typed path; secp256k1 from_secret_key by name",
     "technique": "static analysis: MIR who-may-write/call + must-pass-through + guard-scenario entailment + provenance",
@@ -48,6 +51,7 @@ def run(ctx):
     r34(ctx)
     r35(ctx)
     r36(ctx)
+    r37(ctx)
 
 
 def r31(ctx):
@@ -413,3 +417,72 @@ def r36(ctx):
             ctx.ob("R3.6", ok, f"{b.name}/write-after-loop/{w[2].rsplit('::', 1)[-1]}",
                    "old_secrets is written before all earlier secrets were compared",
                    where=f"{b.file}:{w[1]}", sample="write dominated by loop exit")
+
+
+def r37(ctx):
+    ctx.rule("R3.7", "set_next_counterparty_commit_num keeps the two point slots aligned with the numbers: rotate "
+                     "current -> previous only on num == next + 1, never on a retry; current <- the new point")
+    p = ctx.prog
+    b = p.fn(f"{ES}::set_next_counterparty_commit_num")
+    fv = fnview(ctx, b, policy=False)
+    NEXT = "EnforcementState.next_counterparty_commit_num"
+
+    def writes(field):
+        out = []
+        for bi in sorted(fv.live_blocks()):
+            for s in b.stmts(bi):
+                if s.kind == "a" and s.place.proj and isinstance(s.place.proj[-1], tuple) and s.place.proj[-1][0] == "f" \
+                   and s.place.proj[-1][2] == field:
+                    val = render(fv.expr(s.rv.ops[0])) if s.rv.ops else render(("k", str(s.rv.a)))
+                    if s.rv.op == "agg":
+                        val = ("None" if "None" in str(s.rv.a) else "Some(" + ", ".join(render(peel(fv.expr(o))) for o in s.rv.ops) + ")")
+                    out.append((bi, s.line, val))
+        return out
+    rets = [bi for bi in fv.live_blocks() if b.term(bi).kind == "ret"]
+    wp = writes("previous_counterparty_point")
+    wc = writes("current_counterparty_point")
+    wn = writes("next_counterparty_commit_num")
+    ctx.floor("R3.7", "writes of previous/current point and the counter in the setter", min(len(wp), len(wc), len(wn)), 1)
+    # the counter is read before it is overwritten: every scenario below speaks about the old value
+    def scen(*atoms_):
+        return atoms.scenario_cut(fv, [atoms.parse_atom(a) for a in atoms_])
+    # (a) retry: num == next  => no rotation
+    cut = scen(f"num == {NEXT}")
+    live = fv.reach(0, cut_edges=cut)
+    bad = [w for w in wp if w[0] in live]
+    ctx.ob("R3.7", bool(cut) and not bad, f"{b.name}/retry-keeps-previous-point",
+           "a retry of the current counterparty commitment (num == next_counterparty_commit_num) overwrites "
+           "previous_counterparty_point: the point signed for the older unrevoked commitment is lost and its revocation "
+           "would be checked against the wrong point", where=f"{b.file}:{bad[0][1] if bad else b.line}",
+           sample="num == next => previous_counterparty_point untouched")
+    # (b) progression: num == next + 1 => previous <- current, current <- Some(current_point) on every path
+    cut = scen(f"num == {NEXT} + 1")
+    live = fv.reach(0, cut_edges=cut)
+    lp = [w for w in wp if w[0] in live]
+    lc = [w for w in wc if w[0] in live]
+    ok = bool(cut) and lp and all(v.endswith("current_counterparty_point") for _, _, v in lp) and \
+        not any(r in fv.reach(0, cut_edges=cut, cut_nodes={w[0] for w in lp}) for r in rets)
+    ctx.ob("R3.7", ok, f"{b.name}/progress-rotates", f"on num == next + 1 previous_counterparty_point receives {[v for _, _, v in lp]} "
+           "(expected the current point, on every path)", where=f"{b.file}:{b.line}", sample="previous <- current")
+    ok = bool(cut) and lc and all(v == "Some(current_point)" for _, _, v in lc) and \
+        not any(r in fv.reach(0, cut_edges=cut, cut_nodes={w[0] for w in lc}) for r in rets)
+    ctx.ob("R3.7", ok, f"{b.name}/progress-sets-current", f"on num == next + 1 current_counterparty_point receives {[v for _, _, v in lc]} "
+           "(expected Some(current_point), on every path)", where=f"{b.file}:{b.line}", sample="current <- Some(current_point)")
+    # (c) jump: the older point is unknown => previous <- None
+    for label, a in (("ahead", f"num > {NEXT} + 1"), ("back", f"num < {NEXT}")):
+        cut = scen(a)
+        live = fv.reach(0, cut_edges=cut)
+        lp = [w for w in wp if w[0] in live]
+        ok = bool(cut) and lp and all(v == "None" for _, _, v in lp) and \
+            not any(r in fv.reach(0, cut_edges=cut, cut_nodes={w[0] for w in lp}) for r in rets)
+        ctx.ob("R3.7", ok, f"{b.name}/jump-{label}-clears-previous", f"on {a} previous_counterparty_point receives {[v for _, _, v in lp]} (expected None)",
+               where=f"{b.file}:{b.line}", sample=f"{a} => previous <- None")
+    # (d) jumping ahead also sets the current point
+    cut = scen(f"num > {NEXT} + 1")
+    lc = [w for w in wc if w[0] in fv.reach(0, cut_edges=cut)]
+    ok = bool(cut) and lc and all(v == "Some(current_point)" for _, _, v in lc) and \
+        not any(r in fv.reach(0, cut_edges=cut, cut_nodes={w[0] for w in lc}) for r in rets)
+    ctx.ob("R3.7", ok, f"{b.name}/jump-sets-current", f"on a jump ahead current_counterparty_point receives {[v for _, _, v in lc]}",
+           where=f"{b.file}:{b.line}", sample="num > next + 1 => current <- Some(current_point)")
+    ctx.ob("R3.7", all(v == "num" for _, _, v in wn) and not any(r in fv.reach(0, cut_nodes={w[0] for w in wn}) for r in rets),
+           f"{b.name}/counter", f"next_counterparty_commit_num receives {[v for _, _, v in wn]}", where=f"{b.file}:{b.line}", sample="next <- num")
